@@ -118,19 +118,64 @@ def check_wrapper():
     return None
 
 
+def check_handle_failure():
+    import logging
+
+    from streamflow.log_handler import logger
+
+    class _S(Step):
+        async def run(self): ...
+        async def terminate(self, status): ...
+        async def restore(self, on_tokens): ...
+
+    saved = logger.level
+    try:
+        for level in (logging.DEBUG, logging.INFO, logging.WARNING, logging.ERROR):
+            for fail in (True, False):
+                logger.setLevel(level)
+                fm, ctx = mk(2)
+                calls = []
+
+                async def _recover(job, step, fail=fail, calls=calls):
+                    calls.append(1)
+                    if fail:
+                        raise FailureHandlingException("retries exhausted")
+
+                fm._recover = _recover
+                step = _S.__new__(_S)
+                step.workflow = SimpleNamespace(context=SimpleNamespace(failure_manager=fm))
+                job = Job.__new__(Job)
+                job.name = "/s/0"
+                coro = fm._do_handle_failure(job, step)
+                try:
+                    coro.send(None)
+                    out = "suspended"
+                except StopIteration:
+                    out = None
+                except BaseException as r:
+                    out = r
+                ok = len(calls) == 1 and (isinstance(out, FailureHandlingException) if fail else out is None)
+                if not ok:
+                    return {"log_level": logging.getLevelName(level), "recover_raises": fail, "recover_calls": len(calls), "outcome": repr(out)}
+    finally:
+        logger.setLevel(saved)
+    return None
+
+
 def replay(path):
     d = load_replay(path)
     unit = d["unit"]
     fn = {"RollbackFailureManager._update_request": check_update, "RollbackFailureManager.get_request": check_get_request,
-          "RecoveryRequest.__init__": check_get_request, "DummyFailureManager.recover": check_dummy, "recoverable.wrapper@Try#0": check_wrapper}.get(unit)
+          "RecoveryRequest.__init__": check_get_request, "DummyFailureManager.recover": check_dummy, "recoverable.wrapper@Try#0": check_wrapper,
+          "RollbackFailureManager._do_handle_failure": check_handle_failure}.get(unit)
     if fn is None:
         finish_replay(path, None, "(no native driver for this unit)")
     finish_replay(path, fn())
 
 
 def crosscheck(n):
-    bad = [x for x in (check_update(), check_get_request(), check_dummy(), check_wrapper()) if x]
-    print(json.dumps({"inputs": 4, "native_contract_failures": len(bad), "samples": bad[:2]}))
+    bad = [x for x in (check_update(), check_get_request(), check_dummy(), check_wrapper(), check_handle_failure()) if x]
+    print(json.dumps({"inputs": 5, "native_contract_failures": len(bad), "samples": bad[:2]}))
     sys.exit(1 if bad else 0)
 
 
